@@ -150,6 +150,32 @@ def case_sexpr(case, rec):
     return "(case %s %s %s %s %s %s %s %s %s)" % (enc(str(case["id"])), enc(status), o, known, pat, comments, i, o_, diags)
 
 
+def opts_env_sexpr(case, rec):
+    opts = case.get("opts") or {}
+    if isinstance(opts, str):
+        opts = json.loads(opts)
+    def ob(k, d):
+        return "true" if opts.get(k, d) else "false"
+    pragma = opts.get("pragma")
+    o = "(opts %s %s %s %s %s %s %s)" % (
+        enc(ob("transformOn", False)), enc(ob("optimize", False)), enc(ob("mergeProps", True)),
+        enc(ob("enableObjectSlots", True)), enc(ob("resolveType", False)),
+        enc("some" if pragma is not None else "none"), enc(pragma or ""))
+    known = "(known" + "".join(" " + enc(x) for x in rec.get("known", [])) + ")"
+    pat = "(patmatch" + "".join(" " + enc(x) for x in rec.get("patmatch", [])) + ")"
+    comments = "(comments" + "".join(
+        " (at" + "".join(" " + enc(t) for t in c["texts"]) + ")" for c in rec.get("comments", [])) + ")"
+    return "%s %s %s %s" % (o, known, pat, comments)
+
+
+def pair_sexpr(pid, mode, case_a, rec_a, rec_b):
+    """driver line comparing the implementation's outputs of two related runs"""
+    ca = Ctx(rec_a.get("unresolved_ctxt"), collect_ctxts(rec_a.get("in"), set()))
+    cb = Ctx(rec_b.get("unresolved_ctxt"), collect_ctxts(rec_b.get("in"), set()))
+    return "(pair %s %s %s %s %s)" % (enc(str(pid)), enc(mode), opts_env_sexpr(case_a, rec_a),
+                                      alpha_module(rec_a["out"], ca), alpha_module(rec_b["out"], cb))
+
+
 if __name__ == "__main__":
     import sys
     for line in sys.stdin:
